@@ -85,6 +85,24 @@ pub fn universe(name: &str) -> Vec<Key> {
                 k
             })
             .collect(),
+        // EXT — the extremes of the key space: all zeros, all ones, and their neighbours
+        "EXT" => {
+            let mut v: Vec<Key> = vec![[0u8; 32], [0xffu8; 32]];
+            let mut k = [0u8; 32];
+            k[31] = 1;
+            v.push(k);
+            let mut k = [0xffu8; 32];
+            k[31] = 0xfe;
+            v.push(k);
+            let mut k = [0xffu8; 32];
+            k[0] = 0x7f;
+            v.push(k);
+            let mut k = [0u8; 32];
+            k[0] = 0x80;
+            v.push(k);
+            v.sort();
+            v
+        }
         // DEEP — ten keys sharing six bits (one depth-1 merkle page) and spread over a depth-4
         // binary sub-tree below it: terminals at different depths next to each other, so that a
         // walker moving from one accessed terminal to the next compacts 0, 1 or several levels
